@@ -5,6 +5,7 @@ import (
 	"google.golang.org/protobuf/proto"
 	"google.golang.org/protobuf/runtime/protoiface"
 	"io"
+	"math"
 	"math/bits"
 )
 
@@ -31,6 +32,7 @@ func Skip(dAtA []byte) (n int, err error) {
 	l := len(dAtA)
 	iNdEx := 0
 	depth := 0
+	var groups []uint64 // field numbers of the groups that are currently open
 	for iNdEx < l {
 		var wire uint64
 		for shift := uint(0); ; shift += 7 {
@@ -44,10 +46,17 @@ func Skip(dAtA []byte) (n int, err error) {
 			iNdEx++
 			wire |= (uint64(b) & 0x7F) << shift
 			if b < 0x80 {
+				if shift == 63 && b > 1 {
+					return 0, ErrIntOverflow
+				}
 				break
 			}
 		}
 		wireType := int(wire & 0x7)
+		fieldNum := wire >> 3
+		if fieldNum < 1 || fieldNum > math.MaxInt32 {
+			return 0, fmt.Errorf("proto: illegal tag %d (wire type %d)", fieldNum, wireType)
+		}
 		switch wireType {
 		case 0:
 			for shift := uint(0); ; shift += 7 {
@@ -59,6 +68,9 @@ func Skip(dAtA []byte) (n int, err error) {
 				}
 				iNdEx++
 				if dAtA[iNdEx-1] < 0x80 {
+					if shift == 63 && dAtA[iNdEx-1] > 1 {
+						return 0, ErrIntOverflow
+					}
 					break
 				}
 			}
@@ -77,6 +89,9 @@ func Skip(dAtA []byte) (n int, err error) {
 				iNdEx++
 				length |= (int(b) & 0x7F) << shift
 				if b < 0x80 {
+					if shift == 63 && b > 1 {
+						return 0, ErrIntOverflow
+					}
 					break
 				}
 			}
@@ -85,11 +100,14 @@ func Skip(dAtA []byte) (n int, err error) {
 			}
 			iNdEx += length
 		case 3:
+			groups = append(groups, fieldNum)
 			depth++
 		case 4:
-			if depth == 0 {
+			// an end-group tag must close the innermost open group
+			if depth == 0 || groups[depth-1] != fieldNum {
 				return 0, ErrUnexpectedEndOfGroup
 			}
+			groups = groups[:depth-1]
 			depth--
 		case 5:
 			iNdEx += 4
